@@ -30,5 +30,15 @@ GroupValues == { Q(0,1,0,0,0,0,0,0,0,0), Q(0,1,0,0,0,0,0,1,0,0), Q(0,1,0,0,0,0,0
 ParticipantValues == { Q(0,1,0,0,0,0,0,0,0,0), Q(0,1,0,0,0,0,0,1,0,0), Q(0,1,0,0,0,0,0,2,0,0) }
 MCValues == CASE Kind = "writer" -> WriterValues [] Kind = "reader" -> ReaderValues [] Kind = "topic" -> TopicValues
               [] Kind \in {"publisher", "subscriber"} -> GroupValues [] OTHER -> ParticipantValues
+\* configurations about the factory default: few entity values, a consistent and an inconsistent value for set_default_*_qos
+MCFewValues == CASE Kind = "writer" -> { Q(1,1,0,0,0,0,0,0,0,0), Q(0,1,0,0,0,0,0,0,0,0) }
+                 [] Kind = "reader" -> { Q(0,1,0,0,0,0,0,0,0,0), Q(1,1,0,0,0,0,0,0,0,0) }
+                 [] Kind = "topic" -> { Q(0,1,0,0,0,0,0,0,0,0), Q(1,1,0,0,0,0,0,0,0,0) }
+                 [] OTHER -> { Q(0,1,0,0,0,0,0,0,0,0), Q(0,1,0,0,0,0,0,0,1,0) }
+MCDefaultValues == CASE Kind = "writer" -> { Q(1,3,3,0,0,0,0,1,0,0), Q(1,3,2,0,0,0,0,0,0,0) }
+                     [] Kind = "reader" -> { Q(0,3,3,0,3,2,0,1,0,0), Q(0,3,2,0,0,0,0,0,0,0), Q(0,1,0,0,1,2,0,0,0,0) }
+                     [] Kind = "topic" -> { Q(0,3,3,3,0,0,0,1,0,0), Q(0,3,2,0,0,0,0,0,0,0) }
+                     [] OTHER -> { Q(0,1,0,0,0,0,0,1,0,1), Q(0,1,0,0,0,0,0,0,1,0) }
+MCNoDefaults == {}
 MCCanBeDisabled == {"writer", "reader", "topic"}
 =============================================================================
